@@ -203,7 +203,8 @@ class AxolotlSendLayer(AxolotlBaseLayer):
             if len(errors):
                 self.on_get_keys_process_errors(errors)
 
-            self.sendToGroupWithSessions(node, success_jids)
+            # members we already had a session with need the sender key as well
+            self.sendToGroupWithSessions(node, [jid for jid in jids if jid not in jidsNoSession or jid in success_jids])
 
         if len(jidsNoSession):
             self.getKeysFor(jidsNoSession, lambda successJids, errors: on_get_keys_success(node, successJids, errors))
